@@ -186,12 +186,18 @@ func c02Scenarios(thorough bool) []*Scenario {
 			Requests: []SetReqOrCall{a("leafA", "1"), a("leafA2", "2")}, Faults: []FaultSpec{faultConnDown("T1"), faultConnUp("T1")}, FaultBudget: 2},
 		{Name: "S3 Set on T1+T2 and a neighbour Set on T1, connected", Cfg: WorldConfig{Targets: []string{"T1", "T2"}}, Init: connectAll("T1", "T2"),
 			Requests: []SetReqOrCall{setReq("T1.leafA=x+T2.leafA=y", upd("T1", "/cont/leafA", "x"), upd("T2", "/cont/leafA", "y")), a("leafA", "z")}},
+		{Name: "S1h one Set on T1+T2, connected; one step split (the proposals of T1 and T2 are reconciled concurrently: the proposal controller is partitioned by target)", Cfg: WorldConfig{Targets: []string{"T1", "T2"}}, Init: connectAll("T1", "T2"),
+			Requests: []SetReqOrCall{setReq("T1.leafA=x+T2.leafA=y", upd("T1", "/cont/leafA", "x"), upd("T2", "/cont/leafA", "y"))}, HoldBudget: 1, HoldDepth: 3},
 		{Name: "S7 Set, rejected Set, Set on T1; the device connects later", Cfg: WorldConfig{Targets: []string{"T1"}}, Init: rejectBad,
 			Requests: []SetReqOrCall{a("leafA", "1"), a("leafA", "bad"), a("leafA", "3")}, Faults: []FaultSpec{faultConnUp("T1")}, FaultBudget: 1},
 		{Name: "S4 Set, Set, rollback of the second, connected", Cfg: WorldConfig{Targets: []string{"T1"}}, Init: connectAll("T1"),
 			Requests: []SetReqOrCall{a("leafA", "1"), a("leafA", "2"), rollbackReq("rollback(2)", 2)}},
 	}
 	if thorough {
+		scs = append(scs, []*Scenario{
+			{Name: "S3h Set on T1+T2 and a neighbour Set on T1, connected; one step split (the proposals of T1 and T2 are reconciled concurrently: the proposal controller is partitioned by target)", Cfg: WorldConfig{Targets: []string{"T1", "T2"}}, Init: connectAll("T1", "T2"),
+				Requests: []SetReqOrCall{setReq("T1.leafA=x+T2.leafA=y", upd("T1", "/cont/leafA", "x"), upd("T2", "/cont/leafA", "y")), a("leafA", "z")}, HoldBudget: 1, HoldDepth: 3, MaxStates: 400000},
+		}...)
 		scs = append(scs,
 			&Scenario{Name: "S2cc two Sets on T1, connected, two crashes", Cfg: WorldConfig{Targets: []string{"T1"}}, Init: connectAll("T1"),
 				Requests: []SetReqOrCall{a("leafA", "1"), a("leafA", "2")}, CrashBudget: 2},
